@@ -120,7 +120,8 @@ RULES = {}
 
 def write_evidence(prop, tier, seed, m, wall, unknown, hits, problems, status):
     from pwv import props
-    os.makedirs(os.path.join(_env.VERIF, "evidence"), exist_ok=True)
+    evdir = os.environ.get("PWV_EVIDENCE_DIR") or os.path.join(_env.VERIF, "evidence")  # scratch runs (seeded defects) write elsewhere
+    os.makedirs(evdir, exist_ok=True)
     conf = props.PROPS.get(prop, {})
     rule = conf.get("rule") or (
         "seeded random programs (profile %r) over worlds of 1-3 envelopes, 0-2 custom states and lone subsystems; every "
@@ -158,12 +159,12 @@ def write_evidence(prop, tier, seed, m, wall, unknown, hits, problems, status):
         "violations": len(unknown),
     }
     ev.update(_env.repo_info())
-    with open(os.path.join(_env.VERIF, "evidence", f"{prop}.json"), "w") as f:
+    with open(os.path.join(evdir, f"{prop}.json"), "w") as f:
         json.dump(ev, f, indent=1, default=str)
 
 
 def save_replay(prop, v):
-    d = os.path.join(_env.VERIF, "out", "replays")
+    d = os.path.join(os.environ.get("PWV_OUT_DIR") or os.path.join(_env.VERIF, "out"), "replays")
     os.makedirs(d, exist_ok=True)
     blob = json.dumps({"mode": v["mode"], "sig": v["sig"], "detail": v["detail"], "replay": v["replay"]}, default=str, indent=0)
     h = hashlib.sha1(json.dumps([v["mode"], sorted((k, str(x)) for k, x in v["sig"].items())]).encode()).hexdigest()[:10]
